@@ -109,4 +109,23 @@ ax("A10 Normal(zeros(shape), 1).sample(seed=k) has that shape and is a function 
 ax("A10 Bernoulli(probs=p, dtype=bool).log_prob", close(tfd.Bernoulli(probs=0.3, dtype=jnp.bool_).log_prob(True), jnp.log(0.3), tol=1e-5))
 ax("A10 Categorical(logits) normalises", close(jnp.exp(tfd.Categorical(logits=jnp.array([0.1, 0.5, -1.0])).log_prob(jnp.arange(3))).sum(), 1.0, tol=1e-5))
 
+e3 = tfd.Normal(loc=0.0, scale=1.0).sample(sample_shape=(3,), seed=k)
+ax("A10 Normal(0,1).sample(sample_shape=s, seed=k) has shape s with distinct components", e3.shape == (3,) and len(set(np.asarray(e3).tolist())) == 3)
+
+# ---- A4 (additions of round 4): maximum / minimum, sequence repetition, the extended reals
+for a_, b_ in ((1.0, 2.0), (3, -1), (0.5, 0.5)):
+    ax("A4 jnp.maximum / jnp.minimum on scalars are max / min", close(jnp.maximum(a_, b_), max(a_, b_)) and close(jnp.minimum(a_, b_), min(a_, b_)))
+ax("A1' x > -inf is NOT valid for every float (x = -inf)", not bool(jnp.array(-jnp.inf) > -jnp.inf) and bool(jnp.array(0.0) > -jnp.inf))
+
+# ---- A11 staging: staging jaxpr_as_fun(closed jaxpr) on its operands gives a jaxpr with the same equations (same primitives in
+# the same order) and one output list - the ADEV interpreter's cond branch and forward_mode rely on it
+from jax.extend.core import jaxpr_as_fun  # noqa: E402
+from genjax._src.core.compiler.staging import stage  # noqa: E402
+cj = jax.make_jaxpr(lambda x, y: jnp.sin(x) * y + 2.0)(1.0, 3.0)
+closed2, (flat_in, _, out_tree) = stage(jaxpr_as_fun(cj))(1.0, 3.0)
+ax("A11 stage(jaxpr_as_fun(cj))(*operands) has cj's equations", [e.primitive.name for e in closed2.jaxpr.eqns] == [e.primitive.name for e in cj.jaxpr.eqns],
+   got=[e.primitive.name for e in closed2.jaxpr.eqns], want=[e.primitive.name for e in cj.jaxpr.eqns])
+ax("A11 the staged function returns a list with one entry per output", out_tree().num_leaves == 1 and isinstance(jtu.tree_unflatten(out_tree(), [0.0]), list))
+ax("A11 the staged program computes the same value", close(jax.core.eval_jaxpr(closed2.jaxpr, closed2.literals, 1.0, 3.0)[0], jnp.sin(1.0) * 3.0 + 2.0))
+
 print(json.dumps({"checked": len(checked), "distinct": len(set(checked)), "failed": failed}))
